@@ -274,7 +274,7 @@ func c01Matrix() []c01cell {
 	}
 	// B. JSON positions: schema kind x position x required
 	for _, k := range c01Structured() {
-		for _, pos := range []string{"component", "property", "reqbody", "respbody", "reqbody-comp", "resp-comp", "resp-comp-alias2", "items", "addl"} {
+		for _, pos := range []string{"component", "property", "reqbody", "respbody", "reqbody-comp", "resp-comp", "resp-comp-alias2", "resp-comp-default", "items", "addl"} {
 			for _, req := range []bool{true, false} {
 				if !req && pos != "property" {
 					continue
@@ -305,6 +305,10 @@ func c01Matrix() []c01cell {
 				case "resp-comp":
 					sp.CompResponses["Result"] = dialect.Response{Content: "application/json", Schema: k.mk()}
 					o.Responses = []dialect.Response{{Status: "200", Ref: "Result"}}
+				case "resp-comp-default":
+					// the default response given by reference (next to a status-coded one defined in place)
+					sp.CompResponses["Result"] = dialect.Response{Content: "application/json", Schema: k.mk()}
+					o.Responses = []dialect.Response{{Status: "200"}, {Status: "default", Ref: "Result"}}
 				case "resp-comp-alias2":
 					// through two aliases
 					sp.CompResponses["Result"] = dialect.Response{Content: "application/json", Schema: k.mk()}
@@ -651,7 +655,7 @@ func runC01(c runCfg) error {
 			var sel []c01cell
 			for _, cl := range all {
 				big := cl.tags[0] == "param" || cl.tags[0] == "json" || cl.tags[0] == "resphdr" || cl.tags[0] == "name" || cl.tags[0] == "text"
-				if !big || rng.Intn(4) == 0 || (len(cl.tags) > 2 && cl.tags[2] == "resp-comp-alias2") {
+				if !big || rng.Intn(4) == 0 || (len(cl.tags) > 2 && (cl.tags[2] == "resp-comp-alias2" || cl.tags[2] == "resp-comp-default")) {
 					sel = append(sel, cl)
 				}
 			}
